@@ -218,7 +218,7 @@ def _snip(r):
         parts = []
         for _ in range(r.randint(1, 3)):
             bt = "`" * r.choice([1, 1, 2])
-            inner = r.choice([w(), "`" + w() + "`" if len(bt) == 2 else w(), w() + " " + w()])
+            inner = r.choice([w(), "`" + w() + "`" if len(bt) == 2 else w(), w() + " " + w(), "`" + w() if len(bt) == 2 else w(), w() + "`" if len(bt) == 2 else w()])
             parts.append(bt + sp(0, 2) + inner + sp(0, 2) + bt)
         return [w() + " " + " and ".join(parts)]
     if k == 16:
